@@ -7,7 +7,7 @@ kf=json.load(open(f'{V}/known-findings.json'))
 out=[]
 ck=json.load(open(f'{V}/tools/checks.json'))
 man=json.load(open(f'{V}/MANIFEST.json'))
-lvl={c['property_id']:c.get('level_claimed','') for c in man['checks']}
+lvl={c['property_id']:(c.get('level_claimed') or {}).get('category','') for c in man['checks']}
 out.append('### 12.0 Per-property status (as built)\n')
 out.append('| id | status | what the check does (from MANIFEST level text) |\n|---|---|---|')
 for i in range(1,45):
